@@ -276,10 +276,10 @@ fn rounded_predicate_refusal(_fragment: &str) -> Option<&'static str> {
 
 // ------------------------------------------------------------- generation
 
-fn malformed_fragment(u: &mut U, x: &Big) -> (String, &'static str) {
+fn malformed_fragment(u: &mut U, x: &Big, field_is_not_chain_id: bool) -> (String, &'static str) {
     let d = x.to_dec();
     let xs = if x.is_zero() { "1".to_string() } else { d.clone() };
-    match u.below(34) {
+    match u.below(36) {
         0 if x.bit_len() <= 63 => (format!("-{xs}"), "negative-int"),
         1 if x.bit_len() <= 53 => (format!("-{xs}.0"), "negative-float"),
         2 => (format!("\"-{xs}\""), "negative-dec-string"),
@@ -330,6 +330,11 @@ fn malformed_fragment(u: &mut U, x: &Big) -> (String, &'static str) {
                 _ => format!("1{esc}1"),
             };
             (format!("\"{}{body}\"", if hex { "0x" } else { "" }), if hex { "char-sweep-hex" } else { "char-sweep-dec" })
+        }
+        34 | 35 if field_is_not_chain_id => {
+            // a number behind a scheme-like prefix or with a type suffix of another language: not a number
+            let pool = ["eip155:7", "eip155:0x10", "chain:1", "dec:10", "hex:ff", "u256:1", "#10", "$10", "10n", "10u64", "1_u256", "10L", "0d10", "0h10", "h10", "10 wei?", "=10", "'10'", "(10)"];
+            (format!("\"{}\"", pool[u.below(pool.len())]), "scheme-prefix-or-type-suffix")
         }
         32 => {
             // a decimal string with an exponent whose value is 2^256 or more: whatever a tool makes of exponent
@@ -460,7 +465,7 @@ fn gen_case(tape: Vec<u8>) -> Case {
             (s, class, l)
         }
         5..=7 => {
-            let (f, l) = malformed_fragment(&mut u, &x);
+            let (f, l) = malformed_fragment(&mut u, &x, field != "chainId");
             // leaving out chainId of a legacy transaction / giving it as null is allowed, and removing a fee
             // field of an EIP-1559 transaction may change the kind: keep "absent"/"null" to fields where the
             // document stays the same kind and the field is required
@@ -627,13 +632,20 @@ fn gen_bytes_case(tape: Vec<u8>) -> BytesCase {
         7 => ("to", J::Str(format!("0x{to_hex}00")), "to-21-bytes", Some(false)),
         8 => ("to", J::Str(to_hex.clone()), "to-no-prefix", Some(false)),
         9 => ("to", J::Str(format!("0x{}zz", &to_hex[2..])), "to-non-hex", Some(false)),
-        10 => ("to", J::Str(format!("0x{}", to_hex.to_uppercase())), "to-all-upper-case", None),
+        10 => ("to", J::Str(format!("0x{}", to_hex.to_uppercase())), "to-all-upper-case", Some(true)),
         11 => ("to", J::Str(format!("0x{}", &to_hex[1..])), "to-odd-length", Some(false)),
         12 => ("to", J::Str(format!(" 0x{to_hex}")), "to-leading-space", Some(false)),
         13 => ("to", [J::Num("0".into()), J::Arr(vec![]), J::Bool(false), J::Str(String::new())][u.below(4)].clone(), "to-wrong-kind", Some(false)),
         14 => ("data", J::Str(format!("0x0x{data_hex}")), "data-doubled-prefix", Some(false)),
         15 => ("to", J::Str(format!("0x0x{to_hex}")), "to-doubled-prefix", Some(false)),
-        16 if u.bool() => ("to", J::Str(["0x", "", "0x0", "0x00", " ", "0x "][u.below(6)].to_string()), "to-empty-or-too-short", Some(false)),
+        16 if u.ratio(1, 3) => ("to", J::Str(["0x", "", "0x0", "0x00", " ", "0x "][u.below(6)].to_string()), "to-empty-or-too-short", Some(false)),
+        16 if u.bool() => {
+            // something before a colon, then a well-formed address (malformed account identifiers of other
+            // conventions): not 0x + 40 hex digits
+            let pre = [":", "::", "0x12:", "eip155:", "1:", "x:", " :"][u.below(7)];
+            let text = if u.ratio(1, 6) { format!("0x{to_hex}:0x{to_hex}") } else { format!("{pre}0x{to_hex}") };
+            ("to", J::Str(text), "to-colon-prefixed", Some(false))
+        }
         16 => ("data", J::Str(format!("0x+{data_hex}")), "data-plus-after-prefix", Some(false)),
         k => {
             let (a, slots) = model.access_list[0].clone();
